@@ -108,7 +108,9 @@ pub enum Obs {
 	Api { node: usize, what: String, ok: bool, detail: String },
 	Disconnected { a: usize, b: usize },
 	Reconnected { a: usize, b: usize },
-	Restarted { node: usize },
+	/// Node restarted from (manager bytes, chosen monitor snapshots). `chosen` = (channel, latest update id
+	/// of the monitor snapshot loaded); `lost_delivery` = the message being handled when the crash hit.
+	Restarted { node: usize, chosen: Vec<(ChannelId, u64)>, lost_delivery: Option<(usize, Wire)>, mgr_known_ids: Vec<(ChannelId, u64)> },
 	Completed { node: usize, chan: ChannelId, id: u64 },
 	/// An `ErrorAction` other than a wire message (ignore/log).
 	ErrorAction { from: usize, to: usize, what: String },
@@ -156,6 +158,9 @@ pub struct World {
 	/// when true, commitment_signed etc. are logged compactly to `trace`
 	pub trace: Vec<String>,
 	pub funding_txs: Vec<Transaction>,
+	/// per node: last update id handed to Persist per channel (live), and as of the last manager write
+	pub live_ids: Vec<BTreeMap<ChannelId, u64>>,
+	pub mgr_known_ids: Vec<BTreeMap<ChannelId, u64>>,
 }
 
 pub fn init_msg(features: lightning::types::features::InitFeatures) -> Init {
@@ -186,6 +191,8 @@ impl World {
 			step_count: 0,
 			trace: Vec::new(),
 			funding_txs: Vec::new(),
+			live_ids: vec![BTreeMap::new(); n],
+			mgr_known_ids: vec![BTreeMap::new(); n],
 		}
 	}
 
@@ -246,6 +253,8 @@ impl World {
 		}
 		for i in 0..self.nodes.len() {
 			for rec in self.nodes[i].persist.take_log() {
+				let e = self.live_ids[i].entry(rec.chan).or_insert(0);
+				*e = (*e).max(rec.monitor_update_id);
 				recs.push((rec.seq, Obs::Persist { node: i, rec }));
 			}
 			for b in self.nodes[i].bc.take() {
@@ -267,6 +276,7 @@ impl World {
 			if self.nodes[i].cm.get_and_clear_needs_persistence() {
 				if self.eager_manager_persist {
 					self.nodes[i].write_manager();
+					self.mgr_known_ids[i] = self.live_ids[i].clone();
 				} else {
 					self.manager_dirty[i] = true;
 				}
@@ -644,7 +654,15 @@ impl World {
 
 	// -------------------------------------------------------------------------------------
 	// crash / restart
-	pub fn restart_node(&mut self, n: usize, chosen: &BTreeMap<ChannelId, Snapshot>, manager: Vec<u8>) -> Result<(), String> {
+	pub fn restart_node(
+		&mut self, n: usize, chosen: &BTreeMap<ChannelId, Snapshot>, manager: Vec<u8>, lost_delivery: Option<(usize, Wire)>,
+	) -> Result<(), String> {
+		self.obs.push(Obs::Restarted {
+			node: n,
+			chosen: chosen.iter().map(|(c, s)| (*c, s.monitor_update_id)).collect(),
+			lost_delivery,
+			mgr_known_ids: self.mgr_known_ids[n].iter().map(|(c, i)| (*c, *i)).collect(),
+		});
 		// connections drop
 		for o in 0..self.nodes.len() {
 			if o != n && self.is_connected(n, o) {
@@ -656,10 +674,13 @@ impl World {
 				self.obs.push(Obs::Disconnected { a: n, b: o });
 			}
 		}
+		// whatever the dead process had queued or logged is gone
+		let _ = self.nodes[n].persist.take_log();
+		let _ = self.nodes[n].bc.take();
 		let blocks = self.chain.blocks.clone();
 		self.nodes[n].restart(chosen, &manager, None, &blocks)?;
 		self.synced[n] = blocks.iter().map(|b| b.header.block_hash()).collect();
-		self.obs.push(Obs::Restarted { node: n });
+		self.live_ids[n] = chosen.iter().map(|(c, s)| (*c, s.monitor_update_id)).collect();
 		self.pump();
 		Ok(())
 	}
